@@ -6,7 +6,6 @@ NOT_APPLICABLE = {
  'C17': "values reach the reader only through pickle/zlib/sqlite3 (C code), variable selection is fnmatch/regex on strings and ordering lives in SQL queries: nothing numeric or integer remains to make symbolic, a solver would only re-enumerate concrete runs",
  'C18': "crash points are inside SQLite's journal/commit protocol and the OS; there is no Python-level state machine to encode and fault injection is a different technique family",
  'C29': "the property is a text round trip: values are written with C float formatting ('%.16g'-style format strings chosen by _getformat via int() truncation), located with regular expressions and re-parsed with pyparsing/float(); none of these steps can carry symbolic reals (formatting and regex matching are C code over concrete strings, int()/float() must return concrete Python numbers), and the remaining pure-Python slivers (_SubHelper word counters) are string bookkeeping with no numeric content to quantify; probing concrete inf/nan values would be testing, not solver-based checking (observed while reading: _getformat raises OverflowError/ValueError for inf/nan - see DESIGN.md section 7 f)",
- 'C34': "jax tracing/XLA and jax.jacfwd run in compiled code that cannot carry symbolic proxies; the non-jax func-comp path is complex step over arbitrary user callables (its kernel is covered as far as possible under C14)",
 }
 PENDING_REASON = "check not built yet in this session (planned in DESIGN.md section 5); not claimed until its check exists"
 ALL = ['C%02d' % i for i in range(1, 35)]
